@@ -34,3 +34,106 @@ def token_legend_pairs(fb):
             if ks and sts:
                 pairs.add((ks[0], sts[0]))
     return pairs
+
+
+TOKEN_CALL = r"PeekableLexer::<'source>::(parse_token_of_kind|parse_source_of_kind|parse_string_key_type|parse_token)$"
+
+
+def call_pair(f, t):
+    """(token kind, legend const) passed at one parse_token* call site, or None"""
+    ks, sts = [], []
+    for a in t.args:
+        c = op_const(a)
+        if c and c.get("variant"):
+            ks.append(c["variant"])
+        if c and c.get("uneval"):
+            sts.append(c["uneval"].split("::")[-1])
+        p = op_place(a)
+        if p is not None:
+            for d in local_defs(f, p.local):
+                if hasattr(d, "rv") and d.rv == "aggregate" and "TokenKind" in d.j.get("adt", ""):
+                    ks.append(d.j["variant"])
+                if hasattr(d, "rv") and d.rv == "use":
+                    c2 = op_const(d.ops[0])
+                    if c2 and c2.get("uneval"):
+                        sts.append(c2["uneval"].split("::")[-1])
+                    if c2 and c2.get("variant"):
+                        ks.append(c2["variant"])
+    return (ks[0] if ks else "?", sts[0] if sts else "?")
+
+
+def closure_args(fb, f, t):
+    """closures of `f` passed (by value or by reference) to call `t`"""
+    out = []
+    for a in t.args:
+        c = op_const(a)
+        if c:
+            for key in ("uneval", "fn", "ty"):
+                v = c.get(key) or ""
+                if "{closure" in v:
+                    g = fb.fns.get(v) or next((x for x in fb.closures_of(f) if x.id == v or v.endswith(x.id)), None)
+                    if g is not None:
+                        out.append(g)
+        p = op_place(a)
+        seen = set()
+        while p is not None and p.local not in seen:
+            seen.add(p.local)
+            nxt = None
+            for d in local_defs(f, p.local):
+                if hasattr(d, "rv") and d.rv == "aggregate" and d.j.get("agg") == "closure":
+                    g = fb.fns.get(d.j["def"])
+                    if g is not None:
+                        out.append(g)
+                elif hasattr(d, "rv") and d.rv in ("ref", "use") and (d.place is not None or d.ops):
+                    nxt = d.place or op_place(d.ops[0])
+            p = nxt
+    return out
+
+
+def first_tokens(fb, f, nullable, rejected, memo=None, stack=()):
+    """FIRST set of parser function `f`: the (kind, legend) pairs of the first token-consuming call on every path
+    from its entry. `nullable`: functions that may succeed without consuming a token (the walk continues after them);
+    `rejected`: functions whose success only leads to a diagnostic (their tokens never start an accepted item)."""
+    memo = {} if memo is None else memo
+    if f.id in memo:
+        return memo[f.id]
+    if f.id in stack:
+        return set()
+    out = set()
+    seen, work = set(), [0]
+    while work:
+        b = work.pop()
+        if b in seen:
+            continue
+        seen.add(b)
+        t = f.blocks[b].term
+        cont = True
+        if t.op == "call":
+            if term_calls(t, TOKEN_CALL):
+                out.add(call_pair(f, t))
+                cont = False
+            else:
+                cl = closure_args(fb, f, t)
+                g = fb.fns.get(t.callee)
+                fn_args = []
+                for a in t.args:
+                    c = op_const(a)
+                    if c and c.get("fn") and c["fn"] in fb.fns and "{closure" not in c["fn"]:
+                        fn_args.append(fb.fns[c["fn"]])
+                is_parser = g is not None and g.crate == "isograph_lang_parser" and any(
+                    "PeekableLexer" in x for x in t.j.get("atys", []))
+                if g is not None and g.name in rejected:
+                    pass
+                elif cl or (fn_args and is_parser and g.name in ("to_control_flow", "from_control_flow")):
+                    for c in cl + fn_args:
+                        out |= first_tokens(fb, c, nullable, rejected, memo, stack + (f.id,))
+                    cont = False
+                elif is_parser:
+                    sub = first_tokens(fb, g, nullable, rejected, memo, stack + (f.id,))
+                    out |= sub
+                    cont = (g.name in nullable) or not sub
+        if cont:
+            for s in t.succs():
+                work.append(s)
+    memo[f.id] = out
+    return out
